@@ -617,6 +617,73 @@ class Leftovers(Part):
         return res
 
 
+class FileTimes(Part):
+    name = "file_timestamps_and_modes"
+    desc = "a directory of 3 files with distinct secrets under every assignment of 3 modification times to the files (ties included; access times reversed; read-only modes), main and anonymize_files: output bytes equal those of the first assignment"
+
+    FILES = {"a.cfg": "username u1 password 0 alphaSecret\nsnmp-server community commA\nip address 10.1.1.1\n",
+             "b.cfg": "username u2 password 0 betaSecret\nsnmp-server community commB\nip address 10.1.1.2\n",
+             "sub/c.cfg": "username u3 password 0 gammaSecret\nsnmp-server community commA\nip address 10.1.1.3\n"}
+    TIMES = (946684800, 1262304000, 1700000000)
+
+    def __init__(self, tier, seed):
+        self.tier, self.seed = tier, seed
+
+    def cases(self):
+        return [{"entry": e, "mode": m} for e in ("main", "anonymize_files") for m in (0o644, 0o444)]
+
+    def _go(self, root, tag, assign, case):
+        from netconan.netconan import main
+
+        ind, outd = os.path.join(root, "in-" + tag), os.path.join(root, "out-" + tag)
+        seams.write_tree(ind, self.FILES)
+        for name, t in zip(sorted(self.FILES), assign):
+            fp = os.path.join(ind, name)
+            os.chmod(fp, case["mode"])
+            os.utime(fp, (self.TIMES[2] - (t - self.TIMES[0]), t))
+        with seams.capture_logs(), seams.capture_stdio():
+            if case["entry"] == "main":
+                main(["-i", ind, "-o", outd, "-s", "saltForTest", "-a", "-p"])
+            else:
+                from netconan.anonymize_files import anonymize_files
+
+                anonymize_files(ind, outd, anon_pwd=True, anon_ip=True, salt="saltForTest")
+        seams.restore_globals()
+        out = {}
+        for name in sorted(self.FILES):
+            with open(os.path.join(outd, name), "rb") as fh:
+                out[name] = fh.read().decode("utf-8", "replace")
+        return out
+
+    def run(self, case):
+        res = Res()
+        root = seams.scratch_dir("c13t")
+        try:
+            assigns = [tuple(a) for a in case["assigns"]] if "assigns" in case else \
+                list(itertools.product(self.TIMES, repeat=len(self.FILES)))
+            base = None
+            for k, a in enumerate(assigns):
+                got = self._go(root, "%d" % k, a, case)
+                res.evals += 1
+                res.states += 1
+                res.transitions += 1
+                res.nt((a, case["entry"], case["mode"]))
+                res.out(json.dumps(got, sort_keys=True))
+                if base is None:
+                    base, base_a = got, a
+                elif got != base:
+                    n = [x for x in sorted(got) if got[x] != base[x]][0]
+                    res.violation("output-depends-on-file-timestamps|" + case["entry"],
+                                  "modification times %r give %s = %r, times %r give %r" % (
+                                      base_a, n, base[n][:90], a, got[n][:90]),
+                                  dict(case, assigns=[list(base_a), list(a)]))
+                    break
+            res.samples.append({"case": case, "assignments": len(assigns)})
+        finally:
+            shutil.rmtree(root, ignore_errors=True)
+        return res
+
+
 class Clock(Part):
     name = "owned_clock"
     desc = "every configuration under a frozen clock, a clock that jumps 1000 s per reading and one that runs backwards (time / datetime as seen by netconan's modules replaced): identical output; sites = places where the code looks at a clock"
@@ -918,4 +985,4 @@ class AsListsUnderHashSeeds(Part):
 
 
 def parts(tier, seed):
-    return [Repetition(tier, seed), HashSeeds(tier, seed), History(tier, seed), GeneratedSalt(tier, seed), Leftovers(tier, seed), Clock(tier, seed), Schedules(tier, seed), GeneratedSaltTrees(tier, seed), AsListsUnderHashSeeds(tier, seed)]
+    return [Repetition(tier, seed), HashSeeds(tier, seed), History(tier, seed), GeneratedSalt(tier, seed), Leftovers(tier, seed), FileTimes(tier, seed), Clock(tier, seed), Schedules(tier, seed), GeneratedSaltTrees(tier, seed), AsListsUnderHashSeeds(tier, seed)]
